@@ -54,7 +54,8 @@ def floors(tier):
     return {"histories": 1500, "configs_run": 9000, "operations": 50000, "handler_successes": 5000, "handler_failures": 1000,
             "plan:ok": 300, "plan:fail_once": 300, "plan:fail_always": 300, "docs_with_3plus_fragments": 500,
             "metaschema_refs_resolved": 2000, "store_doc_refs_resolved": 2000, "evictions_observed": 200,
-            "wrapped_as_RefResolutionError": 1000, "handler_docs_declaring_an_id": 500}
+            "wrapped_as_RefResolutionError": 1000, "handler_docs_declaring_an_id": 500, "near_identical_url_pairs": 500,
+            "direct_resolutions_content_checked": 5000}
 
 
 def make_world(rng, d):
@@ -67,6 +68,7 @@ def make_world(rng, d):
     refs = []
     frag3 = 0
     declared_ids = 0
+    distinct_pairs = 0
     for k in range(ndocs):
         url = R.HANDLER_DIR + "d%d.json" % k
         defs = {}
@@ -89,6 +91,19 @@ def make_world(rng, d):
         for n, sp in enumerate(rng.sample(spellings, min(len(spellings), rng.randrange(2, 6)))):
             props["h%d_%d" % (k, n)] = {"$ref": sp}
             refs.append(sp)
+    # pairs of URLs that differ only in letter case of the path, in the query, in a trailing slash or in an
+    # (un)escaped character designate DIFFERENT documents
+    if rng.random() < 0.5:
+        a, b = rng.choice([("Item.json", "item.json"), ("t.json?n=1", "t.json?n=2"), ("dir/", "dir"), ("a%41.json", "aA.json"),
+                           ("x.json?a=1&b=2", "x.json?b=2&a=1"), ("UP/x.json", "up/x.json")])
+        # (a trailing '?' with an empty query is dropped by urllib's normalisation just like a trailing '#': not claimed either way)
+        for name, typ in ((a, "integer"), (b, "string")):
+            url = R.HANDLER_DIR + "pairs/" + name
+            hdocs[url] = {"definitions": {"f0": {"type": typ}}, "type": typ}
+            for sp in (url, url + "#/definitions/f0"):
+                props["u%d" % len(props)] = {"$ref": sp}
+                refs.append(sp)
+        distinct_pairs += 1
     store = {}
     for k in range(rng.randrange(0, 3)):
         url = "http://store.example/lib/s%d.json" % k
@@ -120,7 +135,7 @@ def make_world(rng, d):
                 inst[n] = rng.choice([1, "s", {}, [], None, 2.5, {"type": "string"}, "object", -1])
         insts.append(inst)
     return dict(d=d, schema=S, hdocs=hdocs, store=store, refs=refs, instances=insts, frag3=frag3, metas=metas,
-                declared_ids=declared_ids)
+                declared_ids=declared_ids, distinct_pairs=distinct_pairs)
 
 
 def gen_history(rng, w):
@@ -218,6 +233,7 @@ def check_history(ctx, w, ops, plan):
         ctx.count("plan:" + p["mode"])
     ctx.count("docs_with_3plus_fragments", w["frag3"])
     ctx.count("handler_docs_declaring_an_id", w.get("declared_ids", 0))
+    ctx.count("near_identical_url_pairs", w.get("distinct_pairs", 0))
     outs = {}
     for cr, cache in CONFIGS:
         ctx.count("configs_run")
@@ -246,6 +262,31 @@ def check_history(ctx, w, ops, plan):
             if out["keys1"] != out["keys0"]:
                 ctx.violation("store-grew-with-caching-off", dict(case, config=cfg),
                               "store gained %r" % sorted(out["keys1"] - out["keys0"])[:3])
+    # what a direct resolution must return: the addressed part of the intended document (own pointer walk)
+    from vf.model import uri as U
+    alldocs = dict(w["hdocs"])
+    for k_, v_ in w["store"].items():
+        alldocs[k_.split("#")[0]] = v_
+    for n_, op in enumerate(ops):
+        if op["op"] == "validate" or not str(op.get("ref", "")).startswith(("vf:", "http://store.example")):
+            continue
+        doc_url, frag = U.defrag(op["ref"])
+        if doc_url not in alldocs:
+            continue
+        try:
+            want = jdump(U.ptr_walk(alldocs[doc_url], frag))[:300]
+        except U.PointerError:
+            continue
+        for cfg, out in outs.items():
+            r = out["results"][n_]
+            if r[0] != "ok":
+                continue
+            got = r[1][1] if op["op"] == "resolve" else r[1]
+            ctx.count("direct_resolutions_content_checked")
+            if got != want:
+                ctx.violation("resolved-to-another-document", dict(case, config={"cache_remote": cfg[0], "caches": cfg[1]}, operation=n_),
+                              "%s %r returned %s, the document at that URL has %s there" % (op["op"], op["ref"], got[:120], want[:120]))
+                return
     base = outs[CONFIGS[0]]["results"]
     for cfg, out in outs.items():
         if out["results"] != base:
